@@ -222,14 +222,28 @@ class Spec:
     def w_in_ctor(self, m):
         return False
 
-    def projection(self, m, weights):
-        """Plain Network twin of the un-memoised primary state."""
+    def projection_cls(self):
         from pyunicorn.core.network import Network
-        net = Network(adjacency=mat(m["A"]), directed=m.get("directed", False),
-                      node_weights=weights, silence_level=3)
+        return Network
+
+    def projection(self, m, weights):
+        """Twin of the un-memoised primary state in the nearest base class
+        whose constructor takes an adjacency matrix."""
+        net = self.projection_cls()(
+            adjacency=mat(m["A"]), directed=m.get("directed", False),
+            node_weights=weights, silence_level=3)
         for name in sorted(m.get("attrs", {})):
             net.set_link_attribute(name, mat(m["attrs"][name]))
         return net
+
+    def projectable(self, name):
+        """A query can be judged on the projection twin iff both classes
+        share the very same function for it."""
+        if name.startswith("attr:"):
+            return True
+        a = getattr(self.cls(), name, None)
+        b = getattr(self.projection_cls(), name, None)
+        return a is not None and a is b
 
 
 def _net_model(r, n=None, directed=None):
@@ -436,8 +450,11 @@ class TsonisSpec(ClimateSpec):
 
     def data(self, m):
         from pyunicorn.climate.climate_data import ClimateData
+        # different data sets carry different names (the durable mutual
+        # information cache in the working directory is keyed on the name)
         return ClimateData(observable=mat(m["X"]), grid=geo_grid(m["grid"]),
-                           time_cycle=12, silence_level=3)
+                           time_cycle=12, observable_name=f"x{m['X']['s']}",
+                           silence_level=3)
 
     def construct(self, m):
         return self.cls()(self.data(m), winter_only=m["winter"],
@@ -626,7 +643,7 @@ class JRPSpec(RPSpec):
         out = []
         for mu in base:
             def app(obj, a, m, mu=mu):
-                getattr(obj, mu.name)(a["v"], a["v"])
+                getattr(obj, mu.name)((a["v"], a["v"]))
             out.append(Mut(mu.name, mu.gen, app, mu.update, True))
         return out
 
@@ -661,6 +678,10 @@ class JRNSpec(JRPSpec):
 class VGSpec(Spec):
     name = "VisibilityGraph"
     derived_A = True
+
+    def projection_cls(self):
+        from pyunicorn.core.interacting_networks import InteractingNetworks
+        return InteractingNetworks
 
     def cls(self):
         from pyunicorn.timeseries.visibility_graph import VisibilityGraph
